@@ -426,27 +426,65 @@ def number_digit_sets(ctx: Ctx) -> dict[str, str]:
 def r4_literal_bases(ctx: Ctx) -> None:
     en = ctx.repo.func(EXPR, "eval_number")
     p = en.params()[0]
-    arms, orelse = if_chain([s for s in en.node.body if isinstance(s, ast.If)][0])
-    got = {}
-    for test, body in arms:
-        from ..match import canon as _cn2
+    import re as _re4
+
+    from ..match import canon as _cn2
+
+    top_ifs = [s for s in en.node.body if isinstance(s, ast.If)]
+    got: dict[str | None, int | None] = {}
+    default = None
+
+    def prefix_of(test: ast.AST) -> str | None:
         tt = _cn2(en.node, test)
-        m_ = __import__("re").fullmatch(__import__("re").escape(p) + r"\[:2\] == '(0.)'", tt)
-        if isinstance(test, ast.Call) and call_name(test) == f"{p}.startswith" and len(body) == 1 and isinstance(body[0], ast.Assign):
-            got[const_str(test.args[0])] = const_int(body[0].value)
-        elif m_ and len(body) == 1 and isinstance(body[0], ast.Assign):
-            got[m_.group(1)] = const_int(body[0].value)
+        for pat in (_re4.escape(p) + r"\[:2\] == '(0.)'", _re4.escape(p) + r"\.startswith\('(0.)'\)", r"'(0.)' == " + _re4.escape(p) + r"\[:2\]"):
+            m_ = _re4.fullmatch(pat, tt)
+            if m_:
+                return m_.group(1)
+        return None
+
+    def int_base(e: ast.AST | None) -> int | None:
+        """B of `int(<the text, whole or without its two-character prefix>, B)`"""
+        if isinstance(e, ast.Call) and call_name(e) == "int" and len(e.args) == 2 and _cn2(en.node, e.args[0]) in (p, f"{p}[2:]"):
+            return const_int(e.args[1])
+        return None
+
+    if len(top_ifs) == 1 and top_ifs[0].orelse:
+        arms, orelse = if_chain(top_ifs[0])
+        guard_style = False
+    else:
+        # one `if <prefix test>: return int(...)` per base, then the decimal return
+        arms, orelse, guard_style = [(s.test, s.body) for s in top_ifs], [], True
+    for test, body in arms:
+        pre = prefix_of(test)
+        if pre is None or len(body) != 1:
+            raise AnalysisError(f"eval_number: arm `{unparse(test)}` not modelled")
+        if isinstance(body[0], ast.Assign):
+            got[pre] = const_int(body[0].value)
+        elif isinstance(body[0], ast.Return):
+            got[pre] = int_base(body[0].value)
+            guard_style = True
         else:
             raise AnalysisError(f"eval_number: arm `{unparse(test)}` not modelled")
-    default = const_int(orelse[0].value) if len(orelse) == 1 and isinstance(orelse[0], ast.Assign) else None
+    rets = returns_of(en.node)
+    if guard_style:
+        last = en.node.body[-1]
+        tail = orelse[-1] if orelse else last
+        if not isinstance(tail, ast.Return):
+            raise AnalysisError("eval_number: no decimal return after the prefix arms")
+        v_ = tail.value
+        default = 10 if (isinstance(v_, ast.Call) and call_name(v_) == "int" and len(v_.args) == 1 and _cn2(en.node, v_.args[0]) == p) else int_base(v_)
+    else:
+        default = const_int(orelse[0].value) if len(orelse) == 1 and isinstance(orelse[0], ast.Assign) else None
     ctx.check(got.get("0x") == 16, "eval_number[0x]", f"0x literals are base 16; found {got.get('0x')}")
     ctx.check(got.get("0b") == 2, "eval_number[0b]", f"0b literals are base 2; found {got.get('0b')}")
     ctx.check(default == 10, "eval_number[default]", f"unprefixed literals are decimal; found {default}")
     for pre, base in got.items():
         if pre not in ("0x", "0b"):
             ctx.check(pre == "0o" and base == 8, f"eval_number[{pre}]", f"prefix {pre!r} read in base {base}")
-    rets = returns_of(en.node)
-    ctx.check(len(rets) == 1 and unparse(rets[0].value) == f"int({p}, base)", "eval_number:conversion", "int(text, base): letters under base 10 raise, so a prefixed literal without an arm is never read silently as decimal")
+    if guard_style:
+        ctx.ok("eval_number:conversion", "every arm converts with int(text, base)")
+    else:
+        ctx.check(len(rets) == 1 and unparse(rets[0].value) == f"int({p}, base)", "eval_number:conversion", "int(text, base): letters under base 10 raise, so a prefixed literal without an arm is never read silently as decimal")
     ln = ctx.repo.func(SSTATES, "lex_number")
     acc = number_digit_sets(ctx)
     hexd = acc.get("x") or ""
@@ -593,4 +631,14 @@ def ru_names_bound(ctx: Ctx) -> None:
     names_rule(ctx)
 
 
-RULES = [r1_precedence_order, r2_associativity, r3_evaluation_dispatch, r4_literal_bases, r5_single_evaluator, r6_identifier_values, r7_parenthesised_operand_expressions, rb_binding_agreement, rm_no_process_lifetime_results, ru_names_bound]
+
+def r8_identifier_lookup(ctx: Ctx) -> None:
+    """an identifier inside an expression is the whole (possibly scope-qualified) name and means its innermost definition: the scope-chain
+    lookup and the `.member` segment of lex_identifier (C08.R3 and the qualified-name part of C08.R4)"""
+    from .c08 import lex_identifier_qualified, r3_lookup_chain
+
+    r3_lookup_chain(ctx)
+    lex_identifier_qualified(ctx)
+
+
+RULES = [r1_precedence_order, r2_associativity, r3_evaluation_dispatch, r4_literal_bases, r5_single_evaluator, r6_identifier_values, r7_parenthesised_operand_expressions, r8_identifier_lookup, rb_binding_agreement, rm_no_process_lifetime_results, ru_names_bound]
